@@ -43,6 +43,9 @@ def shards(tier):
     return 6 if tier == "quick" else 16
 
 
+TIMEOUT = {"quick": 600, "thorough": 3000}  # generous: expiry is inconclusive, never a verdict
+
+
 T = paramiko.Transport
 KNOWN = dict(
     kex=[n for n in T._kex_info if not n.startswith("gss-")],
@@ -428,11 +431,13 @@ def stratum_handshakes(ctx, n, time_cap):
             for kind, names in cfg.prefs.items():
                 setattr(t, "_preferred_" + kind, tuple(names))
         p.ts._modulus_pack = kexbench.modulus_pack() if sc.pack else None
+        for t in (p.tc, p.ts):  # loaded box: paramiko's own 15 s limits are not under test
+            t.banner_timeout = t.handshake_timeout = 120
         logs = {"c": [], "s": []}
         for side, t, role in (("c", p.tc, "client"), ("s", p.ts, "server")):
             hook_parse(t, role, logs[side])
         try:
-            completed = p.start(timeout=60)
+            completed = p.start(timeout=150)
             rekeyed = False
             if completed and rng.random() < 0.25:
                 try:
@@ -493,7 +498,7 @@ def run(ctx):
     kexbench.modulus_pack()
     stratum_crafted(ctx, ctx.pick(3000, 18000))
     stratum_honest(ctx, ctx.pick(1000, 6000))
-    stratum_handshakes(ctx, ctx.pick(18, 36), ctx.pick(90, 600))
+    stratum_handshakes(ctx, ctx.pick(18, 36), ctx.pick(300, 1500))
     ctx.require("negotiations_judged", ctx.pick(5000, 50000))
     ctx.require("negotiations_judged_crafted_client", 500)
     ctx.require("negotiations_judged_crafted_server", 500)
